@@ -4,7 +4,7 @@
     thresholds {0, 1/2, 1}: the specification's outcome sets are never empty, never contain both bits, and the rule
     is symmetric (right against left = left against right of the mirrored pair).
 (B3) direct drive of the real CrossCheckingAccurate.disparity_checking on arbitrary pairs of maps (integer, half,
-    quarter and refined-looking fractional disparities, invalid / NaN entries, any validity mask, thresholds, windows,
+    quarter and eighth disparities, invalid / NaN entries, any validity mask, thresholds, windows,
     intervals, 1-3 rows), left against right AND right against left; every pixel decided by TLC on exact rationals.
 """
 from __future__ import annotations
@@ -12,6 +12,7 @@ from __future__ import annotations
 import numpy as np
 
 from vp import build
+from vp import dataplane as dp
 from vp.core import Check
 from vp.project import NAN, conf_same, conf_snapshot, enc_frac, enc_int, same_bits
 
@@ -27,11 +28,103 @@ def gen_map(rng, rows, cols, lo, hi, style, inv):
         d = (rng.randint(2 * lo, 2 * hi + 1, size=(rows, cols)) / 2.0).astype(np.float32)
     elif style == "quarter":
         d = (rng.randint(4 * lo, 4 * hi + 1, size=(rows, cols)) / 4.0).astype(np.float32)
-    else:  # thirds / sixths: what a refinement produces
-        d = (rng.randint(6 * lo, 6 * hi + 1, size=(rows, cols)) / 6.0).astype(np.float32)
+    else:  # eighths: fine fractions as a refinement produces, still exact in float32 (thirds or sixths are not: the sum
+        # of two of them can differ from the exact rational by one ulp, which decides a comparison with threshold 0)
+        d = (rng.randint(8 * lo, 8 * hi + 1, size=(rows, cols)) / 8.0).astype(np.float32)
     vm = rng.choice([0, 0, 0, 0, 0, 4, 8, 12, 1, 2, 64, 128, 66], size=(rows, cols))
     d[(vm & 0b1111000011) != 0] = inv
     return d, vm
+
+
+def xc_case(cid, a0, b0, va, win, glo, ghi, thr, out, other_after, csnap, with_conf):
+    """one cross_check step case: maps before (a0 checked against b0, flags va), checked dataset `out` after"""
+    rows, cols = np.asarray(a0).shape
+    names = list(map(str, out.coords["indicator"].data)) if "confidence_measure" in out.data_vars else []
+    nold = len(csnap[0]) if csnap is not None else 0
+    band_ok = len(names) > 0 and names[-1] == "confidence_from_left_right_consistency" and len(names) == nold + 1
+    band = out["confidence_measure"].data[:, :, -1] if names else np.full((rows, cols), np.nan)
+    if with_conf and names:
+        old_ok = names[:-1] == csnap[0] and same_bits(out["confidence_measure"].data[:, :, :-1], csnap[1])
+    else:
+        old_ok = True
+    band_enc = [[([1000000009, 1] if np.isinf(v2) else enc_frac(v2)) for v2 in row] for row in np.asarray(band, dtype=np.float64)]
+    return {"id": cid, "step": "cross_check", "rows": rows, "cols": cols, "win": win, "gmin": glo, "gmax": ghi,
+            "thr": enc_frac(thr), "dL": fr_arr(a0), "dR": fr_arr(b0), "vm": enc_int(va),
+            "out": {"vm": enc_int(out["validity_mask"].data), "band": band_enc,
+                    "frame_dL": same_bits(a0, out["disparity_map"].data), "frame_dR": same_bits(b0, other_after),
+                    "frame_conf": bool(old_ok), "band_name_ok": bool(band_ok)}}
+
+
+def machine_cases(chk, tier, rng, cases, meta):
+    """The validation step of the REAL machine: the left map is checked against the right one and the right map against
+    the left one AS BOTH WERE BEFORE THE STEP (the optional filling of occlusions / mismatches comes after both checks).
+    The maps handed to the filling are captured, so that the check is also observable when the step interpolates."""
+    from pandora.validation import interpolated_disparity as interp_mod
+    n = 25 if tier == "quick" else 300
+    for k in range(n):
+        measure = ["sad", "census"][k % 2]
+        win = 3 if measure == "census" else [1, 3][k % 2]
+        s = [1, 2, 4][k % 3]
+        a = int(rng.randint(-3, 1))
+        prob = dp.gen_problem(rng, rows=win + 2 + k % 3, cols=win + 6 + k % 5, win=win, s=s, measure=measure,
+                              disp=(a, a + int(rng.randint(1, 4))), mask_mode=["none", "both", "left", "right"][k % 4])
+        thr = float([0.0, 1.0, 0.5, 2.0][k % 4])
+        interp = [None, "mc-cnn", "sgm"][k % 3]
+        vcfg = {"validation_method": "cross_checking_accurate", "cross_checking_threshold": thr}
+        if interp:
+            vcfg["interpolated_disparity"] = interp
+        steps = [("matching_cost", dp.mc_cfg(prob)), ("disparity", {"disparity_method": "wta", "invalid_disparity": [-9999, "NaN"][k % 2]})]
+        if k % 5 == 0:
+            steps.append(("filter", {"filter_method": "median", "filter_size": 3}))
+        steps.append(("validation", vcfg))
+        feat = {"style": "machine", "thr": thr, "win": win, "inv_nan": bool(k % 2), "rows": prob["rows"], "interp": interp, "subpix": s}
+        chk.count(("machine", measure, win, s, thr, interp, k))
+        captured = {}
+        patched = []
+        try:
+            left, right = dp.make_datasets(prob)
+            r = dp.StepRunner(left, right, {"pipeline": {nm: dict(c) for nm, c in steps}})
+            for _ in range(len(steps) - 1):
+                r.step()
+            m = r.m
+            Lb, Rb = m.left_disparity.copy(deep=True), m.right_disparity.copy(deep=True)
+
+            def wrap(orig):
+                def w(obj, ds, *a_, **kw):
+                    side = "L" if ds is m.left_disparity else ("R" if ds is m.right_disparity else "?")
+                    captured.setdefault(side, ds.copy(deep=True))
+                    captured.setdefault("order", []).append(side)
+                    return orig(obj, ds, *a_, **kw)
+                return w
+            for cls in set(interp_mod.AbstractInterpolation.interpolation_methods_avail.values()):
+                if "interpolated_disparity" in cls.__dict__:
+                    patched.append((cls, cls.__dict__["interpolated_disparity"]))
+                    setattr(cls, "interpolated_disparity", wrap(cls.__dict__["interpolated_disparity"]))
+            try:
+                r.step()
+            finally:
+                for cls, orig in patched:
+                    setattr(cls, "interpolated_disparity", orig)
+            preL = captured.get("L", m.left_disparity) if interp else m.left_disparity
+            preR = captured.get("R", m.right_disparity) if interp else m.right_disparity
+            if interp and (captured.get("order") != ["L", "R"]):
+                chk.violation("fill_after_both_checks", dict(direction="-", interp=interp), {"features": feat, "order": captured.get("order")},
+                              f"the filling was not applied once to the left then once to the right map: {captured.get('order')}")
+                r.close()
+                continue
+            r.close()
+        except Exception as exc:  # pylint: disable=broad-except
+            chk.violation("total", dict(feat, exception=type(exc).__name__), {"exception": repr(exc)[:300]}, f"validation step raised on {feat}")
+            continue
+        for direction, ref_b, sec_b, pre, other_pre in (("LR", Lb, Rb, preL, preR), ("RL", Rb, Lb, preR, preL)):
+            cid = f"v{k}{direction}"
+            iv = ref_b["disparity_interval"].data
+            csnap = conf_snapshot(ref_b)
+            case = xc_case(cid, ref_b["disparity_map"].data, sec_b["disparity_map"].data, ref_b["validity_mask"].data,
+                           int(ref_b.attrs["window_size"]), int(iv[0]), int(iv[1]), thr, pre, other_pre["disparity_map"].data,
+                           csnap, csnap is not None)
+            cases.append(case)
+            meta[cid] = dict(feat, direction=direction)
 
 
 def run(tier):
@@ -43,7 +136,7 @@ def run(tier):
         "dependence of the code's rint(index + d) is judged by C13",
         "correspondent outside the right image: flagged occlusion, or mismatch when some d matches (both readings accepted)",
         "right disparity NaN at the correspondent: the band may hold any non-NaN marker (the code writes inf)",
-        "disparities are fractions with denominator <= 6 and thresholds multiples of 1/4: exact in float32 for |d| <= 16",
+        "disparities are multiples of 1/8 and thresholds multiples of 1/4: every sum and comparison is exact in float32",
     ]
     res = chk.tlc("MC_Validation", "MC_Validation_thorough.cfg" if tier == "thorough" else "MC_Validation.cfg", label="xcheck_theorems", workers=16, timeout=1800, heap="6g")
     for inv in res.invariant_violations:
@@ -57,7 +150,7 @@ def run(tier):
         win = int(rng.choice([1, 1, 3])) if rows >= 3 and cols >= 3 else 1
         lo = int(rng.randint(-3, 2))
         hi = lo + int(rng.randint(0, 4))
-        style = ["int", "half", "quarter", "sixth"][k % 4]
+        style = ["int", "half", "quarter", "eighth"][k % 4]
         inv = [-9999.0, float("nan")][(k // 4) % 2]
         thr = float([0.0, 0.25, 0.5, 1.0, 2.0][k % 5])
         dL, vmL = gen_map(rng, rows, cols, lo, hi, style, inv)
@@ -89,23 +182,12 @@ def run(tier):
             except Exception as exc:  # pylint: disable=broad-except
                 chk.violation("total", dict(feat, exception=type(exc).__name__), {"exception": repr(exc)[:300]}, f"disparity_checking raised on {feat}")
                 continue
-            names = list(map(str, out.coords["indicator"].data)) if "confidence_measure" in out.data_vars else []
-            band_ok = len(names) > 0 and names[-1] == "confidence_from_left_right_consistency" and len(names) == (2 if with_conf else 1)
-            band = out["confidence_measure"].data[:, :, -1] if names else np.full((rows, cols), np.nan)
-            if with_conf and names:
-                old_ok = names[:-1] == csnap[0] and same_bits(out["confidence_measure"].data[:, :, :-1], csnap[1])
-            else:
-                old_ok = True
-            band_enc = [[([1000000009, 1] if np.isinf(v2) else enc_frac(v2)) for v2 in row] for row in np.asarray(band, dtype=np.float64)]
-            case = {"id": cid, "step": "cross_check", "rows": rows, "cols": cols, "win": win, "gmin": glo, "gmax": ghi,
-                    "thr": enc_frac(thr), "dL": fr_arr(a0), "dR": fr_arr(b0), "vm": enc_int(va),
-                    "out": {"vm": enc_int(out["validity_mask"].data), "band": band_enc,
-                            "frame_dL": same_bits(a0, out["disparity_map"].data), "frame_dR": same_bits(b0, right["disparity_map"].data),
-                            "frame_conf": bool(old_ok), "band_name_ok": bool(band_ok)}}
+            case = xc_case(cid, a0, b0, va, win, glo, ghi, thr, out, right["disparity_map"].data, csnap, with_conf)
             cases.append(case)
             meta[cid] = feat
             if len(chk.samples) < 3:
                 chk.sample({"features": feat, "dL": case["dL"][0], "dR": case["dR"][0], "vm_before": case["vm"][0], "vm_after": case["out"]["vm"][0]})
+    machine_cases(chk, tier, rng, cases, meta)
     verdicts = chk.tlc_cases("PipelineTrace", "PipelineTrace.cfg", cases, label="c07", chunk=100, parallel=12)
     for cid, v in verdicts.items():
         c = next(x for x in cases if x["id"] == cid) if v["failed"] else None
@@ -117,7 +199,7 @@ def run(tier):
                 q = cc + dl[0] / dl[1]
                 feat["correspondent_outside_image"] = bool(np.rint(q) < 0 or np.rint(q) >= c["cols"])
             chk.violation(clause, feat, {"meta": meta[cid], "detail": v["detail"], "case": c}, f"{cid}: {clause} {v['detail']} {meta[cid]}")
-    chk.rule = ("random pairs of left/right disparity maps (1-3 rows x 1-8 cols; integer / half / quarter / sixth disparities; invalid and "
+    chk.rule = ("random pairs of left/right disparity maps (1-3 rows x 1-8 cols; integer / half / quarter / eighth disparities; invalid and "
                 "NaN entries; any validity mask; thresholds 0..2; windows 1/3; intervals within -3..4), each checked left-against-right and "
                 "right-against-left; distinct = distinct parameter tuples")
     return chk.finish()
